@@ -13,11 +13,17 @@ import lib
 from lib import Failure
 
 
-def run_stream(binary, cases, reset_line, is_driver=False, timeout=1200):
-    """returns list (per case) of output line lists; an aborted case gets its partial output + ['!ABORT <stderr tail>']"""
+def run_stream(binary, cases, reset_line, is_driver=False, timeout=1200, max_aborts=6):
+    """returns list (per case) of output line lists; an aborted case gets its partial output + ['!ABORT <stderr tail>'].
+    After `max_aborts` crashes the remaining cases are not run (their result is ['!SKIPPED'])."""
     results = [None] * len(cases)
     start = 0
+    aborts = 0
     while start < len(cases):
+        if aborts >= max_aborts:
+            for k in range(start, len(cases)):
+                results[k] = ["!SKIPPED"]
+            break
         lines = []
         bounds = []
         for c in cases[start:]:
@@ -37,6 +43,7 @@ def run_stream(binary, cases, reset_line, is_driver=False, timeout=1200):
                 part = out[a:] if a <= len(out) else []
                 results[start + k] = part + ["!ABORT rc=%d %s" % (rc, summarize_err(err))]
                 done += 1
+                aborts += 1
                 break
         else:
             break
